@@ -152,7 +152,7 @@ func (r *Report) Decide(kf *Findings) Outcome {
 	for _, k := range rules {
 		if counts[k] < r.Floors[k] {
 			out.FloorFailures = append(out.FloorFailures,
-				fmt.Sprintf("rule %s matched %d instances, fewer than the %d confirmed by hand: the rule's anchors no longer resolve", k, counts[k], r.Floors[k]))
+				fmt.Sprintf("rule %s matched %d instances, fewer than the %d confirmed on the reference tree: a checked construct (a guard, a site, an arm) was removed or the rule's anchors no longer resolve; run with -list and compare with the evidence of the reference tree", k, counts[k], r.Floors[k]))
 		}
 	}
 	seenKnown := map[string]bool{}
